@@ -5,6 +5,7 @@ Stated on the reference machine KV.Spec (which M-Precond refines, C05 `refines`,
 itself.  Property theorems only; helpers in Lemmas/SpecFacts.lean.
 -/
 import KfacVerif.Lemmas.SpecFacts
+import KfacVerif.Lemmas.LoadInto
 
 namespace KV.C09
 open KV KV.Precond KV.Spec
@@ -87,5 +88,16 @@ theorem roundtrip_spec (c : SCfg) (s : SSt) (inclF ci : Bool) (l : Nat) (hl : l 
 theorem saveLoad_is_loadInto (c : Cfg) (s : St) (f ci : Bool) :
     Precond.saveLoad c s f ci = Precond.loadInto c (Precond.saveState c s f) (Precond.saveState c s f) f ci :=
   rfl
+
+/-- the repaired `load_state_dict` (fix f317514: layers without factors are skipped instead of
+    raising), which is what the driver executes, is the operation of the theorems above whenever
+    every layer has its factors -/
+theorem loadInto'_eq (c : Cfg) (cur snap : St) (f ci : Bool)
+    (hs : snap.ranks.length = c.world) (hs' : ∀ ls ∈ snap.ranks, ls.length = c.layers.length)
+    (hf : ∀ r l, r < c.world → l < c.layers.length →
+      (getL snap r l).aFactor.isSome = true ∧ (getL snap r l).gFactor.isSome = true) :
+    Precond.loadInto' c cur snap f ci = Precond.loadInto c cur snap f ci :=
+  have _ := hs; have _ := hs'
+  LoadInto.loadInto'_eq c cur snap f ci hf
 
 end KV.C09
